@@ -344,6 +344,7 @@ struct kase
   size_t max = 20000;
   unsigned timeout = 10;
   long abandon = -1;
+  std::string script;
 };
 
 static kase
@@ -389,6 +390,8 @@ parse_case (std::string const &line)
 	k.timeout = std::stoul (val);
       else if (key == "abandon")
 	k.abandon = std::stol (val);
+      else if (key == "script")
+	k.script = val;
     }
   return k;
 }
@@ -675,11 +678,171 @@ run_tree (kase const &k)
     }
 }
 
+
+// History mode (C12): one query text, compiled as object A (and lazily B, and
+// as often again as the script asks), and a script of operations:
+//   s<j>=<hex expr>   build input stack j (expression evaluated on the Dwarf
+//                     value(s) given by dw=, or on the empty stack)
+//   e<k><a|b>s<j>     zw_query_execute (A or B, stack j) -> result set k
+//   p<k>              zw_result_next on result set k
+//   d<k>              zw_result_destroy
+//   c=<hex query>     compile (and keep until the end) an unrelated query
+//   x<k>=<hex query>  compile an unrelated query and execute it fully on the empty stack
+// Answer: {"pulls":[[k, stack|null|{"error":..}], ...], "stacks_modified":bool}
+static std::string
+run_hist (kase const &k)
+{
+  zw_error *e = nullptr;
+  zw_query *qa = zw_query_parse_len (g_voc, k.query.data (), k.query.size (), &e);
+  if (qa == nullptr)
+    {
+      std::string msg = e ? zw_error_message (e) : "";
+      if (e)
+	zw_error_destroy (e);
+      return "{\"compile_error\":" + jstr (msg) + "}";
+    }
+  zw_query *qb = nullptr;
+  std::map <long, zw_result *> results;
+  std::map <long, zw_stack *> stacks;
+  std::map <long, std::string> stack_dumps;
+  std::vector <zw_query *> others;
+  std::string pulls;
+  bool first = true;
+
+  size_t i = 0;
+  std::string const &sc = k.script;
+  while (i < sc.size ())
+    {
+      size_t j = sc.find (',', i);
+      if (j == std::string::npos)
+	j = sc.size ();
+      std::string tok = sc.substr (i, j - i);
+      i = j + 1;
+      if (tok.empty ())
+	continue;
+      char op = tok[0];
+      if (op == 's')
+	{
+	  size_t eq = tok.find ('=');
+	  long id = std::stol (tok.substr (1, eq - 1));
+	  kase k2 = k;
+	  k2.in = unhex (tok.substr (eq + 1));
+	  k2.has_in = true;
+	  std::string ierr;
+	  zw_stack *stk = make_input (k2, ierr);
+	  if (stk == nullptr)
+	    return "{\"input_error\":" + jstr (ierr) + "}";
+	  stacks[id] = stk;
+	  stack_dumps[id] = dump_zw_stack (stk);
+	}
+      else if (op == 'e')
+	{
+	  size_t ab = tok.find_first_of ("ab", 1);
+	  long id = std::stol (tok.substr (1, ab - 1));
+	  bool use_b = tok[ab] == 'b';
+	  long sid = std::stol (tok.substr (ab + 2));
+	  if (use_b && qb == nullptr)
+	    qb = zw_query_parse_len (g_voc, k.query.data (), k.query.size (), &e);
+	  zw_result *r = zw_query_execute (use_b ? qb : qa, stacks[sid], &e);
+	  results[id] = r;
+	}
+      else if (op == 'p')
+	{
+	  long id = std::stol (tok.substr (1));
+	  zw_stack *out = nullptr;
+	  e = nullptr;
+	  std::string item;
+	  if (results.count (id) == 0 || results[id] == nullptr)
+	    item = "\"no-such-result\"";
+	  else if (zw_result_next (results[id], &out, &e))
+	    {
+	      if (out == nullptr)
+		item = "null";
+	      else
+		{
+		  item = dump_zw_stack (out);
+		  zw_stack_destroy (out);
+		}
+	    }
+	  else
+	    {
+	      item = "{\"error\":" + jstr (e ? zw_error_message (e) : "") + "}";
+	      if (e)
+		zw_error_destroy (e);
+	    }
+	  std::string ev, er;
+	  bool a = true, b = true;
+	  drain_errors (ev, er, a, b);
+	  pulls += std::string (first ? "" : ",") + "[" + std::to_string (id) + "," + item + ",[" + er + "]]";
+	  first = false;
+	}
+      else if (op == 'd')
+	{
+	  long id = std::stol (tok.substr (1));
+	  if (results.count (id) && results[id] != nullptr)
+	    {
+	      zw_result_destroy (results[id]);
+	      results[id] = nullptr;
+	    }
+	}
+      else if (op == 'c')
+	{
+	  std::string q = unhex (tok.substr (2));
+	  zw_query *o = zw_query_parse_len (g_voc, q.data (), q.size (), &e);
+	  if (o != nullptr)
+	    others.push_back (o);
+	  else if (e)
+	    zw_error_destroy (e);
+	}
+      else if (op == 'x')
+	{
+	  size_t eq = tok.find ('=');
+	  std::string q = unhex (tok.substr (eq + 1));
+	  zw_query *o = zw_query_parse_len (g_voc, q.data (), q.size (), &e);
+	  if (o != nullptr)
+	    {
+	      zw_stack *es = zw_stack_init (&e);
+	      zw_result *r = zw_query_execute (o, es, &e);
+	      zw_stack *out = nullptr;
+	      size_t n = 0;
+	      while (r != nullptr && zw_result_next (r, &out, &e) && out != nullptr && n++ < 1000)
+		zw_stack_destroy (out);
+	      if (r != nullptr)
+		zw_result_destroy (r);
+	      zw_stack_destroy (es);
+	      zw_query_destroy (o);
+	      std::string ev, er;
+	      bool a = true, b = true;
+	      drain_errors (ev, er, a, b);
+	    }
+	  else if (e)
+	    zw_error_destroy (e);
+	}
+    }
+  bool modified = false;
+  for (auto &p: stacks)
+    if (dump_zw_stack (p.second) != stack_dumps[p.first])
+      modified = true;
+  for (auto &p: results)
+    if (p.second != nullptr)
+      zw_result_destroy (p.second);
+  for (auto &p: stacks)
+    zw_stack_destroy (p.second);
+  for (auto o: others)
+    zw_query_destroy (o);
+  if (qb != nullptr)
+    zw_query_destroy (qb);
+  zw_query_destroy (qa);
+  return "{\"pulls\":[" + pulls + "],\"stacks_modified\":" + (modified ? "true" : "false") + "}";
+}
+
 static std::string
 do_case (kase const &k)
 {
   if (k.mode == "tree")
     return run_tree (k);
+  if (k.mode == "hist")
+    return run_hist (k);
   if (k.mode == "nosimp")
     return run_internal (k, false);
   if (k.mode == "internal")
